@@ -132,8 +132,9 @@ theorem mem_var_covar (s : ColSpec) (c : String) (hc : c ∈ s.var_cols) : c ∈
 section Nw
 variable (s : ColSpec) (T : List (Row κ α)) (v : κ)
 
-/-- stage 1 + 2 applied to a row of the table -/
-def nwDem : List (Name × Expr) := (covarCols s).map (fun c => (Name.demean c, demeanNw true c))
+/-- the group means joined to the rows, and the demeaned columns -/
+def nwGm : List (Name × Expr) := (covarCols s).map (fun c => (Name.gmean c, Expr.mean (ucol c)))
+def nwDem : List (Name × Expr) := (covarCols s).map (fun c => (Name.demean c, Expr.sub (ucol c) (.col (.gmean c))))
 def nwProd : List (Name × Expr) :=
   s.var_cols.map (fun c => (Name.var c, Expr.mul (.col (.demean c)) (.col (.demean c))))
     ++ s.cov_cols.map (fun p => (Name.cov p.1 p.2, Expr.mul (.col (.demean p.1)) (.col (.demean p.2))))
@@ -148,28 +149,69 @@ def nwPost : List (Name × Expr) :=
         Expr.div (.col (.cov p.1 p.2)) (.sub (.lit 1) (.div (.lit 1) (.col .count)))))
 
 theorem nwQuery_eq (h : covarCols s ≠ []) :
-    nwQuery true s = [Stage.withColumns (nwDem s), Stage.withColumns (nwProd s),
+    nwQuery true s = [Stage.joinGroup (nwGm s), Stage.withColumns (nwDem s), Stage.withColumns (nwProd s),
       Stage.aggregate true (nwAgg s), Stage.withColumns (nwPost s)] := by
-  unfold nwQuery nwDem nwProd nwAgg nwPost
+  unfold nwQuery demeanNwStages nwGm nwDem nwProd nwAgg nwPost
   have : (covarCols s).isEmpty = false := by
     cases hc : covarCols s with
     | nil => exact absurd hc h
     | cons a l => rfl
   simp [this]
 
-/-- the value of `_demean__c` after stage 1: the column minus its mean over the row's own group -/
-theorem dem_val (c : String) (hc : c ∈ covarCols s) (r : Row κ α) :
-    (wcRow (nwDem s) T r).val (Name.demean c)
+/-- the row transformer of the join with the group means -/
+def jgRow (defs : List (Name × Expr)) (T : List (Row κ α)) (r : Row κ α) : Row κ α :=
+  { r with val := fun n => match lookupDef defs n with
+                          | some _ => (aggRow defs (T.filter (fun r' => r'.key = r.key)) r.key).val n
+                          | none => r.val n }
+
+theorem joinGroup_eq (defs : List (Name × Expr)) (T : List (Row κ α)) :
+    joinGroup defs T = T.map (jgRow defs T) := rfl
+
+/-- join + demeaning applied to a row of the table -/
+def demRow (r : Row κ α) : Row κ α :=
+  wcRow (nwDem s) (T.map (jgRow (nwGm s) T)) (jgRow (nwGm s) T r)
+
+@[simp] theorem demRow_key (r : Row κ α) : (demRow s T r).key = r.key := rfl
+
+theorem stages12_eq : (T.map (jgRow (nwGm s) T)).map (wcRow (nwDem s) (T.map (jgRow (nwGm s) T))) = T.map (demRow s T) := by
+  rw [List.map_map]; rfl
+
+/-- the value of `_group_mean__c` after the join: the mean of the column over the row's own group -/
+theorem gm_val (c : String) (hc : c ∈ covarCols s) (r : Row κ α) (hr : r ∈ T) :
+    (jgRow (nwGm s) T r).val (Name.gmean c)
+      = smean (T.filter (fun r' => r'.key = r.key)) (fun r' => r'.val (.user c)) := by
+  have hl : lookupDef (nwGm s) (Name.gmean c) = some (Expr.mean (ucol c)) :=
+    lookupDef_map (covarCols s) Name.gmean (fun c => Expr.mean (ucol c)) (fun a b h => by injection h) c hc
+  have hmem : r ∈ T.filter (fun r' => r'.key = r.key) := List.mem_filter.mpr ⟨hr, by simp⟩
+  obtain ⟨r0, hr0⟩ : ∃ r0, (T.filter (fun r' => r'.key = r.key)).head? = some r0 := by
+    cases h : T.filter (fun r' => r'.key = r.key) with
+    | nil => rw [h] at hmem; cases hmem
+    | cons a l => exact ⟨a, rfl⟩
+  simp only [jgRow, hl, aggRow, hr0, evalRow, ucol]
+
+/-- the value of `_demean__c` after the join and the subtraction: the column minus its mean over the
+row's own group -/
+theorem dem_val (c : String) (hc : c ∈ covarCols s) (r : Row κ α) (hr : r ∈ T) :
+    (demRow s T r).val (Name.demean c)
       = r.val (.user c) - smean (T.filter (fun r' => r'.key = r.key)) (fun r' => r'.val (.user c)) := by
-  have hl : lookupDef (nwDem s) (Name.demean c) = some (demeanNw true c) :=
-    lookupDef_map (covarCols s) Name.demean (demeanNw true) (fun a b h => by injection h) c hc
+  have hl : lookupDef (nwDem s) (Name.demean c) = some (Expr.sub (ucol c) (.col (.gmean c))) :=
+    lookupDef_map (covarCols s) Name.demean (fun c => Expr.sub (ucol c) (.col (.gmean c)))
+      (fun a b h => by injection h) c hc
+  unfold demRow
   rw [wcRow_val_some _ _ _ _ _ hl]
-  simp [demeanNw, evalRow, ucol]
+  simp only [evalRow, ucol]
+  rw [gm_val s T c hc r hr]
+  congr 1
+  have : lookupDef (nwGm s) (Name.user c) = none := lookupDef_map_none _ _ _ _ (fun c' => by simp)
+  simp [jgRow, this]
 
 /-- user columns pass through stages 1 and 2 unchanged -/
-theorem user_val_dem (c : String) (r : Row κ α) : (wcRow (nwDem s) T r).val (Name.user c) = r.val (.user c) := by
-  apply wcRow_val_none
-  exact lookupDef_map_none _ _ _ _ (fun c' => by simp)
+theorem user_val_dem (c : String) (r : Row κ α) : (demRow s T r).val (Name.user c) = r.val (.user c) := by
+  unfold demRow
+  have h1 : lookupDef (nwDem s) (Name.user c) = none := lookupDef_map_none _ _ _ _ (fun c' => by simp)
+  rw [wcRow_val_none _ _ _ _ h1]
+  have : lookupDef (nwGm s) (Name.user c) = none := lookupDef_map_none _ _ _ _ (fun c' => by simp)
+  simp [jgRow, this]
 
 theorem user_val_prod (T' : List (Row κ α)) (c : String) (r : Row κ α) :
     (wcRow (nwProd s) T' r).val (Name.user c) = r.val (.user c) := by
@@ -260,15 +302,15 @@ theorem post_lookup_none (n : Name) (h1 : ∀ c, Name.var c ≠ n) (h2 : ∀ a b
   rw [lookupDef_append, lookupDef_map_none _ _ _ _ h1, lookupDef_map_pair_none _ _ _ h2]
   rfl
 
-/-- the group's rows after stages 1 and 2 -/
+/-- the group's rows after the join, the demeaning and the products -/
 def nwG2 : List (Row κ α) :=
-  (T.filter (fun r => r.key = v)).map (fun r => wcRow (nwProd s) (T.map (wcRow (nwDem s) T)) (wcRow (nwDem s) T r))
+  (T.filter (fun r => r.key = v)).map (fun r => wcRow (nwProd s) (T.map (demRow s T)) (demRow s T r))
 
 theorem nwG2_eq :
-    ((T.map (wcRow (nwDem s) T)).map (wcRow (nwProd s) (T.map (wcRow (nwDem s) T)))).filter (fun r => r.key = v)
+    ((T.map (demRow s T)).map (wcRow (nwProd s) (T.map (demRow s T)))).filter (fun r => r.key = v)
       = nwG2 s T v := by
-  rw [filter_map_key (T.map (wcRow (nwDem s) T)) (wcRow (nwProd s) (T.map (wcRow (nwDem s) T))) (fun r => rfl),
-    filter_map_key T (wcRow (nwDem s) T) (fun r => rfl), List.map_map]
+  rw [filter_map_key (T.map (demRow s T)) (wcRow (nwProd s) (T.map (demRow s T))) (fun r => rfl),
+    filter_map_key T (demRow s T) (fun r => rfl), List.map_map]
   rfl
 
 /-- in the group, the windowed mean is the group's mean -/
@@ -291,8 +333,8 @@ theorem nw_eval_eq_stats (hcc : covarCols s ≠ []) (hG : 2 ≤ (T.filter (fun r
       (∀ p ∈ s.cov_cols, r.val (Name.cov p.1 p.2)
         = scov (T.filter (fun r => r.key = v)) (fun r => r.val (.user p.1)) (fun r => r.val (.user p.2))) := by
   rw [nwQuery_eq s hcc]
-  simp only [eval, List.foldl_cons, List.foldl_nil, evalStage, withColumns_eq]
-  set T1 := T.map (wcRow (nwDem s) T) with hT1
+  simp only [eval, List.foldl_cons, List.foldl_nil, evalStage, withColumns_eq, joinGroup_eq, stages12_eq]
+  set T1 := T.map (demRow s T) with hT1
   set T2 := T1.map (wcRow (nwProd s) T1) with hT2
   have hkeys : T2.map (·.key) = T.map (·.key) := by
     simp [hT2, hT1, List.map_map, Function.comp_def]
@@ -346,7 +388,7 @@ theorem nw_eval_eq_stats (hcc : covarCols s ≠ []) (hG : 2 ≤ (T.filter (fun r
       rw [S_map]
       apply S_congr
       intro r hr
-      rw [prod_val_var s _ c hc, dem_val s T c hcv, window_in_group T v c r hr]
+      rw [prod_val_var s _ c hc, dem_val s T c hcv r (List.mem_filter.mp hr).1, window_in_group T v c r hr]
     rw [hcount, hvar]
     simp only [Int.cast_one]
     rw [rescale _ _ n0 n1]
@@ -367,7 +409,8 @@ theorem nw_eval_eq_stats (hcc : covarCols s ≠ []) (hG : 2 ≤ (T.filter (fun r
       rw [S_map]
       apply S_congr
       intro r hr
-      rw [prod_val_cov s _ p hp, dem_val s T p.1 hc1, dem_val s T p.2 hc2,
+      rw [prod_val_cov s _ p hp, dem_val s T p.1 hc1 r (List.mem_filter.mp hr).1,
+        dem_val s T p.2 hc2 r (List.mem_filter.mp hr).1,
         window_in_group T v p.1 r hr, window_in_group T v p.2 r hr]
     rw [hcount, hcov]
     simp only [Int.cast_one]
@@ -378,9 +421,9 @@ theorem nw_eval_eq_stats (hcc : covarCols s ≠ []) (hG : 2 ≤ (T.filter (fun r
 theorem nw_eval_keys (hcc : covarCols s ≠ []) :
     (eval (nwQuery true s) T).map (·.key) = (T.map (·.key)).dedup := by
   rw [nwQuery_eq s hcc]
-  simp only [eval, List.foldl_cons, List.foldl_nil, evalStage, withColumns_eq, aggregate, if_true,
+  simp only [eval, List.foldl_cons, List.foldl_nil, evalStage, withColumns_eq, joinGroup_eq, aggregate, if_true,
     List.map_map, Function.comp_def, wcRow_key, aggRow]
-  simp
+  simp [jgRow]
 
 end Nw
 
@@ -522,9 +565,23 @@ def ntAgg (s : ColSpec) : List (Name × Expr) :=
     ++ s.var_cols.map (fun c => (Name.var c, Expr.varSample (.cast (ucol c))))
     ++ s.cov_cols.map (fun p => (Name.cov p.1 p.2, Expr.covSample (.cast (ucol p.1)) (.cast (ucol p.2))))
 
+theorem nt_lookup_count (s : ColSpec) (h : s.has_count = true) : lookupDef (ntAgg s) Name.count = some Expr.countStar := by
+  unfold ntAgg; simp [h, lookupDef]
+
+theorem nt_lookup_mean (s : ColSpec) (c : String) (hc : c ∈ s.mean_cols) :
+    lookupDef (ntAgg s) (Name.mean c) = some (Expr.mean (.cast (ucol c))) := by
+  unfold ntAgg
+  have h1 : lookupDef (if s.has_count then [(Name.count, Expr.countStar)] else []) (Name.mean c) = none := by
+    split_ifs <;> simp [lookupDef]
+  rw [lookupDef_append, lookupDef_append, lookupDef_append, h1,
+    lookupDef_map _ Name.mean _ (fun a b h => by injection h) c hc]
+  rfl
+
 theorem ibisNative_eval_eq_stats (s : ColSpec) (T : List (Row κ α)) (v : κ)
     (hG : 1 ≤ (T.filter (fun r => r.key = v)).length) :
     ∃ r ∈ eval (ibisNativeQuery true s) T, r.key = v ∧
+      (s.has_count = true → r.val Name.count = ((T.filter (fun r => r.key = v)).length : α)) ∧
+      (∀ c ∈ s.mean_cols, r.val (Name.mean c) = smean (T.filter (fun r => r.key = v)) (fun r => r.val (.user c))) ∧
       (∀ c ∈ s.var_cols, r.val (Name.var c) = svar (T.filter (fun r => r.key = v)) (fun r => r.val (.user c))) ∧
       (∀ p ∈ s.cov_cols, r.val (Name.cov p.1 p.2)
         = scov (T.filter (fun r => r.key = v)) (fun r => r.val (.user p.1)) (fun r => r.val (.user p.2))) := by
@@ -539,8 +596,12 @@ theorem ibisNative_eval_eq_stats (s : ColSpec) (T : List (Row κ α)) (v : κ)
     cases h : T.filter (fun r => r.key = v) with
     | nil => rw [h] at hG; simp at hG
     | cons a l => exact ⟨a, rfl⟩
-  refine ⟨aggRow (ntAgg s) (T.filter (fun r => r.key = v)) v, ?_, rfl, ?_, ?_⟩
+  refine ⟨aggRow (ntAgg s) (T.filter (fun r => r.key = v)) v, ?_, rfl, ?_, ?_, ?_, ?_⟩
   · simp only [aggregate, if_true]; exact List.mem_map.mpr ⟨v, hv, rfl⟩
+  · intro hc
+    simp only [aggRow, nt_lookup_count s hc, hr0, evalRow]
+  · intro c hc
+    simp only [aggRow, nt_lookup_mean s c hc, hr0, evalRow, ucol]
   · intro c hc
     have hl : lookupDef (ntAgg s) (Name.var c) = some (Expr.varSample (.cast (ucol c))) := by
       unfold ntAgg
@@ -560,6 +621,31 @@ theorem ibisNative_eval_eq_stats (s : ColSpec) (T : List (Row κ α)) (v : κ)
         lookupDef_map_pair _ (fun p => Expr.covSample (.cast (ucol p.1)) (.cast (ucol p.2))) p hp]
       rfl
     simp only [aggRow, hl, hr0, evalRow, ucol]
+
+/-! ## one statement for the three pipelines -/
+
+/-- row `r` holds, under the output names, the exact sample statistics of the rows of `T` with variant `v` -/
+def IsStats (s : ColSpec) (T : List (Row κ α)) (v : κ) (r : Row κ α) : Prop :=
+  r.key = v ∧
+  (s.has_count = true → r.val Name.count = ((T.filter (fun r => r.key = v)).length : α)) ∧
+  (∀ c ∈ s.mean_cols, r.val (Name.mean c) = smean (T.filter (fun r => r.key = v)) (fun r => r.val (.user c))) ∧
+  (∀ c ∈ s.var_cols, r.val (Name.var c) = svar (T.filter (fun r => r.key = v)) (fun r => r.val (.user c))) ∧
+  (∀ p ∈ s.cov_cols, r.val (Name.cov p.1 p.2)
+    = scov (T.filter (fun r => r.key = v)) (fun r => r.val (.user p.1)) (fun r => r.val (.user p.2)))
+
+/-- **C01 (grouped, at least one variance / covariance requested)**: each of the three pipelines
+`aggr.py` can build returns, for every variant with at least two rows, a row holding exactly the sample
+statistics of that variant's rows. -/
+theorem all_pipelines_eq_stats (s : ColSpec) (T : List (Row κ α)) (v : κ) (hcc : covarCols s ≠ [])
+    (hG : 2 ≤ (T.filter (fun r => r.key = v)).length) :
+    (∃ r ∈ eval (nwQuery true s) T, IsStats s T v r)
+    ∧ (∃ r ∈ eval (ibisFallbackQuery true s) T, IsStats s T v r)
+    ∧ (∃ r ∈ eval (ibisNativeQuery true s) T, IsStats s T v r) := by
+  refine ⟨?_, ?_, ?_⟩
+  · obtain ⟨r, hr, h1, h2, h3, h4, h5⟩ := nw_eval_eq_stats s T v hcc hG
+    exact ⟨r, hr, h1, fun _ => h2, h3, h4, h5⟩
+  · exact ibisFallback_eval_eq_stats s T v hcc hG
+  · exact ibisNative_eval_eq_stats s T v (by omega)
 
 /-- sanity: demeaning by the GLOBAL mean instead of the variant's mean is not the same thing — the
 theorems above can fail -/
